@@ -24,6 +24,22 @@ CLAIMS = {
          "jsonSet/jsonMultiset Equals are bounded (assume_iface); the hash function itself is not modelled.", "8 C04"),
  "C13": ("other", "Zero-annotation safety sweep: every function of package jd (v2) - readers of jd/patch/merge/JSON/YAML text, Patch, Diff, Render*, Equals, hash codes, helpers; 193 functions - is verified for every index, slice, make, type-assertion, nil-call/dereference, division and explicit-panic obligation, under validity preconditions (no nil interface inside documents/diffs) that the readers are proved to establish for arbitrary text (external decoders assumed not to panic and to return plain native values). Loop termination is proved where a decreases clause is given. The same contracts are evaluated on bounded universes as a sanity run.",
          "dependencies (encoding/json, yaml.v2, jsonpointer, golcs, sort, strings, bytes, fnv) are assumed not to panic; json.Marshal is assumed not to fail on jd values; colour rendering (colorStringMarshal) is trusted; recursion termination is not proved; the CLI part of the property is covered under C14.", "8 C13"),
+ "C02": ("other", "Proved for all inputs: the line reader readDiff, NewPath, readMetadata and checkDiffElement never panic on arbitrary text and return only valid diffs (loop invariants over the line automaton, incl. the inlined allow() closure); Render / DiffElement.Render do not modify the diff (frame obligations). The round trip itself (render, read back: identical text, identical effect; colour adds only ANSI codes) is the contract of the wrappers verifDiffText (all diffs produced by Diff over a bounded document universe incl. strings needing escaping) and verifTextCarrier (well-formed hunk sequences built from the public fields, strict followed by merge) and is evaluated on bounded universes.",
+         "payload fidelity rests on encoding/json; the flush-discipline invariant of the reader is not yet proved (bounded only); colour rendering is trusted code.", "8 C02"),
+ "C06": ("other", "Proved for all inputs: the LCS walk jsonList.diffRest (with its seven closures inlined) stays in bounds given that the common sequence is a subsequence of both hash lists (assumed contract of golcs), returns only valid hunks with fresh paths, and never writes to its inputs. Minimality against an independent DP LCS and 'exactly one before/after line equal to the neighbour or the boundary' are the contracts of the wrappers verifListMinimal / verifContextAdjacent, evaluated on all array pairs over {1,2,3} up to length 3 (4 in thorough) and on the general document universe.",
+         "optimality of the common subsequence is a property of the dependency yudai/golcs (bounded only); hunk-shape postconditions of diffRest are not yet proved.", "8 C06"),
+ "C07": ("other", "Proved for all inputs: scalar diff emits a hunk only when not Equals (biconditional), object diff emits hunks only for differing keys (loop invariants), validity and freshness of all emitted hunks. Per-hunk realism and leave-one-out non-redundancy are the contract of the wrapper verifHunksReal, evaluated on all document pairs of a bounded universe x 8 option sets.",
+         "leave-one-out is a statement about the whole diff and stays bounded.", "8 C07"),
+ "C09": ("other", "Proved for all inputs: RenderPatch, writePointer and Path.JsonNode never panic on valid diffs, do not modify the diff they render, and Path.JsonNode returns a fresh valid plain array. Agreement with an independent RFC 6902 evaluator (written from the RFC in the hook file, sharing no code with jd) is the contract of the wrapper verifRenderPatchFaithful, evaluated on all pointer-expressible document pairs of a bounded universe.",
+         "the op-sequence shape of RenderPatch is not yet a proved postcondition; JSON encoding and pointer escaping are dependencies.", "8 C09"),
+ "C10": ("other", "Proved for all inputs: ReadPatchString, readPatchDiffElement (with setPatchDiffElementContext inlined) and readPointer never panic on arbitrary op sequences, terminate (decreases on the remaining ops) and return valid hunks. 'Never more permissive than the RFC' and the read-back round trip are the contract of the wrapper verifReadPatchFaithful (independent RFC 6902 evaluator as oracle), evaluated on bounded (a, b, target) triples.",
+         "conformance is bounded only.", "8 C10"),
+ "C11": ("other", "Proved for all inputs: RenderMerge rejects non-merge hunks without touching the caller's diff (frame obligation; it works on a copy) and only calls Patch on a valid diff. Agreement with the RFC 7386 pseudocode (transcribed in the hook file) is the contract of the wrapper verifRenderMergeFaithful, evaluated on all null-free, different document pairs of a bounded universe x {MERGE, SET+MERGE, MULTISET+MERGE}.",
+         "semantic agreement is bounded only.", "8 C11"),
+ "C12": ("other", "Proved for all inputs: ReadMergeString / readMergeInto never panic and return valid merge hunks (sorted key traversal). Equality with MergePatch(target, patch) of RFC 7386 is the contract of the wrapper verifReadMergeFaithful, evaluated on all (target, patch) pairs of a bounded universe that contains nulls, empty objects at depth, arrays and scalars. Three recorded deviations (null at the root; {} at the root over a non-object; nested {} over an existing object) are reported as KNOWN-FINDING.",
+         "semantic agreement is bounded only.", "8 C12"),
+ "C16": ("other", "Proved for all inputs: NewJsonNode returns a valid document or an error for every native value that encoding/json or yaml.v2 can produce (incl. yaml maps with interface{} keys), never panics, and is total on scalars and on maps of ready-made nodes; the readers establish validity for arbitrary text. Which scalars YAML quotes and how it resolves plain scalars is inside yaml.v2: the round trips JSON->YAML->JSON and 'JSON text read as YAML' are the contract of the wrapper verifYamlJson, evaluated on a bounded universe that contains the ambiguous strings named by the property.",
+         "yaml.v2 / encoding/json behaviour is assumed for the proofs and only bounded-checked.", "8 C16"),
 }
 
 def main():
